@@ -1285,7 +1285,16 @@ class AgProtocol(utils.EventEmitter):
                     )
                     self.send_error()
                     continue
-                handler(*command.parameters)
+                try:
+                    handler(*command.parameters)
+                except (ValueError, KeyError):
+                    # The handlers validate their parameters before answering
+                    logger.warning(
+                        'Invalid parameters for %s: %s',
+                        handler_name,
+                        command.parameters,
+                    )
+                    self.send_error()
             else:
                 logger.warning('Handler %s not found', handler_name)
                 self.send_response('ERROR')
@@ -1415,8 +1424,9 @@ class AgProtocol(utils.EventEmitter):
         self.emit(self.EVENT_CODEC_NEGOTIATION, self.active_codec)
 
     def _on_bvra(self, vrec: bytes) -> None:
+        state = VoiceRecognitionState(int(vrec))
         self.send_ok()
-        self.emit(self.EVENT_VOICE_RECOGNITION, VoiceRecognitionState(int(vrec)))
+        self.emit(self.EVENT_VOICE_RECOGNITION, state)
 
     def _on_chld(self, operation_code: bytes) -> None:
         call_index: int | None = None
@@ -1461,7 +1471,7 @@ class AgProtocol(utils.EventEmitter):
             )
         )
         self.send_ok()
-        self._remained_slc_setup_features.remove(HfFeature.THREE_WAY_CALLING)
+        self._remained_slc_setup_features.discard(HfFeature.THREE_WAY_CALLING)
         self._check_remained_slc_commands()
 
     def _on_cind_test(self) -> None:
@@ -1558,7 +1568,7 @@ class AgProtocol(utils.EventEmitter):
 
         self.send_ok()
 
-        self._remained_slc_setup_features.remove(HfFeature.HF_INDICATORS)
+        self._remained_slc_setup_features.discard(HfFeature.HF_INDICATORS)
         self._check_remained_slc_commands()
 
     def _on_biev(self, index_bytes: bytes, value_bytes: bytes) -> None:
